@@ -1,7 +1,7 @@
 SPEC = {
     "id": "C08",
     "harness": "c08",
-    "n": {"quick": 5000, "thorough": 60000},
+    "n": {"quick": 4000, "thorough": 60000},
     "shard": 250,
     "trusted_base": [
         "the ~300 leaf validators of css/validation are an ORACLE PARAMETER (`validate`) of the pipeline theorems: not verified, exercised by the metamorphic stream (impl-vs-impl)",
@@ -23,16 +23,16 @@ SPEC = {
         "decls": "C08_bad_declarations_dropped_alone / C08_four_sides_spec / C08_generic_expander_resets",
         "computed": "C08_pending_invalid_falls_back / C08_resolve_var_total / C08_resolve_var_subst",
         "resolve": "C08_resolve_var_subst / C08_resolve_var_total / C08_cyclic_reference_is_invalid",
-        "meta-case": "C08_name_case_insensitive", "meta-ws": "C08_whitespace_comment_irrelevant",
+        "meta-case": "C08_spelling_irrelevant (hypothesis reads_projection for the validator of this property)", "meta-ws": "C08_spelling_irrelevant / C08_whitespace_comment_irrelevant",
         "meta-shorthand": "C08_four_sides_spec / shorthand = longhands", "meta-var": "C08_resolve_var_subst (var(--x) = its tokens)",
-        "meta-bad": "C08_bad_declarations_dropped_alone",
+        "meta-bad": "C08_bad_declarations_dropped_alone", "meta-corpus": "C08_spelling_irrelevant / C08_bad_declarations_dropped_alone (regression pairs of corpus/C08/meta.tsv)",
     },
     "harness_timeout": 600,
     "tie_codes": (),  # a dead / hung worker (code 3) IS a failing input here: the implementation crashes on it
     "rule": "SplitMix64-seeded generators: declaration blocks mixing valid/invalid longhands and shorthands of the modelled families, unknown / prefixed / non-print properties, custom properties, var() uses, !important, comments, case noise; custom-property graphs (chains, diamonds, self loops, 2/3-cycles, undefined with/without fallback, var() nested in functions) resolved directly and through the computed style of a probe element; metamorphic pairs over a per-property table of valid values; corpus/C08 first; non-trivial = more than one compound or a non-empty result; distinct by Coq term",
 }
 MANIFEST = {
-    "text": "Coq theorems over an executable model of PreprocessDeclarations' declaration pipeline parameterised by the leaf validators (bad declarations dropped alone, name case / whitespace / comment irrelevance at token-projection level, four-sides and generic-expander shorthand semantics, var() resolution = token substitution with fallback, total with cyclic references reported invalid, invalid pending values fall back to inherited/initial), compared by vm_compute with /repo on generated blocks and custom-property graphs on every run; metamorphic impl-vs-impl spelling variants for all properties",
-    "note": "Trusted: Coq kernel (vm_compute), Go harness, hook html/tree/verif_export_c08.go, pa.ParseColor and C04's tables as oracle inputs. Partial: the individual validators are a parameter of the theorems (tested metamorphically, not proved); the tokenizer-level part of the spelling theorems is C06's.",
+    "text": "Coq theorems over an executable model of PreprocessDeclarations' declaration pipeline parameterised by the leaf validators (bad declarations dropped alone; spelling irrelevance at pipeline level for every validator reading only the case/whitespace projection, proved to hold for the modelled validators; four-sides and generic-expander shorthand semantics; var() resolution = token substitution with fallback, total with cyclic references reported invalid, invalid pending values fall back to inherited/initial), compared by vm_compute with /repo on generated blocks and custom-property graphs on every run; metamorphic impl-vs-impl spelling variants for all properties",
+    "note": "Trusted: Coq kernel (vm_compute), Go harness, hook html/tree/verif_export_c08.go, pa.ParseColor and C04's tables as oracle inputs. Partial: the individual validators are a parameter of the theorems (the hypothesis reads_projection is proved for the modelled ones and tested metamorphically for the ~290 others); the tokenizer-level part of spelling (text -> tokens) is C06's.",
     "technique": "Coq proof over executable model + vm_compute correspondence with the Go implementation + metamorphic testing",
 }
